@@ -21,7 +21,8 @@
 (***************************************************************************)
 EXTENDS Naturals, FiniteSets, TLC
 
-CONSTANTS Keys, Contents, Root, LinkType, KnownDev, MaxCheckouts, InitWs, InitCache, Prompts
+CONSTANTS Keys, Contents, Root, LinkType, KnownDev, MaxCheckouts, InitWs, InitCache, Prompts, Twins
+\* Twins = pairs of contents of the same size
 \* LinkType = the configured cache type: "copy" | "hard" | "sym"
 NoFile == [c |-> "-", lt |-> "-"]
 F(c, lt) == [c |-> c, lt |-> lt]
@@ -236,6 +237,17 @@ Arrive(c) ==
     /\ act' = [op |-> "Arrive", c |-> c]
     /\ UNCHANGED <<ws, dirobjs, pc, args, todoDel, todoNew, needRm, pend, failed, res, touched, dev, n>>
 
+\* between two checkouts (of one process) the user replaces a workspace file by another file - moved into place, so a new
+\* inode - that has the size and carries the time stamp of the old one: whatever a state database remembers about the
+\* path (hash, link record) is about a file that is no longer there.  For the model this is just another workspace.
+Replace(k, c) ==
+    /\ Idle /\ n >= 1 /\ n < MaxCheckouts
+    /\ k \in AllKeys /\ ws.files[k] # NoFile /\ <<ws.files[k].c, c>> \in Twins
+    /\ ws' = [ws EXCEPT !.files[k] = F(c, "copy")]
+    /\ act' = [op |-> "Replace", k |-> k, c |-> c]
+    /\ res' = [kind |-> "none"]        \* what the last checkout reported no longer describes the workspace
+    /\ UNCHANGED <<cache, dirobjs, pc, args, todoDel, todoNew, needRm, pend, failed, touched, dev, n>>
+
 Targets == {[kind |-> "none"]} \cup {[kind |-> "file", c |-> c] : c \in Contents}
               \cup {[kind |-> "tree", listing |-> l] : l \in UNION {[S -> Contents] : S \in SUBSET Keys}}
 Next ==
@@ -243,6 +255,7 @@ Next ==
     \/ \E k \in AllKeys : RemoveDel(k) \/ PromptDel(k) \/ RemoveNew(k) \/ PromptNew(k) \/ Create(k) \/ CreateDangling(k)
     \/ End \/ Crash \/ EndDoomed
     \/ \E c \in Contents : Evict(c) \/ Corrupt(c) \/ Arrive(c)
+    \/ \E k \in AllKeys, c \in Contents : Replace(k, c)
 
 (******************************* properties *********************************)
 \* ---- C05: without force (and without an affirmative prompt) nothing that is not recoverable from
